@@ -223,6 +223,22 @@ def run_impl(c, timeout=3):
     return {'status': status, 'groups': groups}
 
 
+def gen_decimal_case(rng):
+    """decimal-grid stream: global_time_precision p, timesteps and intervals on the 10^-p grid"""
+    p = rng.choice([1, 1, 2])
+    g = 10 ** p
+    c = gen_case(rng, max_procs=4, scripted=False)
+    for pr in c['procs']:
+        if pr['ts'][0] == 'const':
+            pr['ts'][1] = rng.randint(1, 25) / g
+        else:
+            pr['ts'][1] = [rng.randint(1, 25) / g for _ in pr['ts'][1]]
+    c['calls'] = [[rng.randint(0, 40) / g, k] for _, k in c['calls']]
+    c['t0'] = 0
+    c['precision'] = p
+    return c
+
+
 # ------------------------------------------------------------------ rendering
 
 SCALE = {'decimal': None}
